@@ -22,10 +22,10 @@ package main
 // reported as `timeout`, never a hang of the harness.
 
 import (
-	"io"
 	"context"
 	"errors"
 	"fmt"
+	"io"
 	"log"
 	"math/big"
 	"os"
